@@ -9,6 +9,7 @@ Case kinds
   ids     munge._process_ids / _reduce_ids on id columns
   call0d  a zero-dimensional numpy array as cost
   rewrite a parameter file rewritten at the same path and read again in the same process
+  selfop  a monitor extended / prepended / added with itself
 """
 import os, sys, io, json, math, contextlib, itertools
 from harness.coqio import flit, zlit, natlit, lst, opt, blit, slit
@@ -21,7 +22,7 @@ SIZES = {"quick": 1500, "thorough": 30000}
 PARALLEL = True
 SHARD = 150
 COQ_TIMEOUT = 600
-RULE = ("cases: kind in {ops, log, files, ids, call0d, rewrite}; ops = scripts of <= 14 operations over <= 3 created monitors "
+RULE = ("cases: kind in {ops, log, files, ids, call0d, rewrite, selfop}; ops = scripts of <= 14 operations over <= 3 created monitors "
         "(classes Monitor/VerboseMonitor/LoggingMonitor/VerboseLoggingMonitor, k in {None,1,-1,2,0.5,3}), records with python/numpy "
         "scalars, lists, tuples, 1-d/2-d arrays, vector costs, ids; value classes grid (k/8), generic, special (inf/nan/-0/"
         "subnormal/huge); non-trivial = at least two records in some monitor/file; distinct = distinct case JSON")
@@ -30,7 +31,8 @@ TRUSTED = ["real-number axioms of Coq's standard library (Reals) for the k-trans
            "newline inside a printed number are checked on every generated file)",
            "the binary64 instance of the model (PrimFloat) is evaluated on the same inputs and compared bit for bit "
            "(NaN = NaN, signed zeros distinguished)"]
-ASSUMPTIONS = ["IEEE rounding of y*k/k for k not a power of two is modelled (bit-exact in the correspondence), not verified: the theorems are over R",
+ASSUMPTIONS = ["a per-case guard (address-space limit + interval timer) turns non-termination / unbounded allocation of the implementation into a failure of the case",
+               "IEEE rounding of y*k/k for k not a power of two is modelled (bit-exact in the correspondence), not verified: the theorems are over R",
                "a.extend(a) with k set and a.prepend(a) do not terminate in the implementation; the model and the generators require two different monitors",
                "nested (2-d) parameter arrays in log lines are checked by the oracle only, the codec model covers flat parameter vectors",
                "index objects other than int and slice (lists, arrays, tuples) in Monitor.__getitem__ are not modelled",
@@ -301,6 +303,8 @@ def generate(rng, n, tier):
             yield _gen_files(rng, tier)
         elif r < 0.98:
             yield _gen_ids(rng, tier)
+        elif r < 0.983:
+            yield dict(kind="selfop", op=rng.choice(["extend", "prepend", "add"]), k=rng.choice([None, 2, -1]), n=rng.randint(1, 3))
         elif r < 0.99:
             yield dict(kind="call0d", k=rng.choice([None, None, 1, 2, -1]), y=enc(rng.randint(-8, 8) / 4.0))
         else:
@@ -592,6 +596,25 @@ def _run_call0d(case):
     return dict(len=len(m), y=[enc(float(v)) for v in m.y], lens=[len(m._x), len(m._y), len(m._id)])
 
 
+def _run_selfop(case):
+    """a monitor combined with itself; extend/prepend with self may never return in the implementation"""
+    import mystic.monitors as mm
+    m = mm.Monitor(k=case["k"])
+    for i in range(case["n"]):
+        m([float(i)], float(i) + 0.5, i)
+    try:
+        with _guard(0.4, 1 << 28):
+            if case["op"] == "add":
+                r = m + m
+            else:
+                getattr(m, case["op"])(m)
+                r = m
+            return dict(x=enc_tree(r.x), y=[_obs_cost(v) for v in r.y], id=[_id_val(i) for i in r.id], arg_len=len(m))
+    except (MemoryError, CaseTimeout) as e:
+        m = r = None
+        return dict(error=type(e).__name__)
+
+
 def _run_rewrite(case):
     from mystic import munge
     import mystic.monitors as mm
@@ -665,6 +688,8 @@ def run_impl(case):
             return _run_call0d(case)
         if k == "rewrite":
             return _run_rewrite(case)
+        if k == "selfop":
+            return _run_selfop(case)
     raise ValueError(k)
 
 
@@ -961,6 +986,20 @@ def oracle(case, obs):
             return [_fail("len_after_n_calls", "Monitor.__call__", obs["error"], obs)]
         if obs["len"] != 1 or not tree_same(obs["y"], [case["y"]]):
             return [_fail("y_roundtrip_k_transparent", "Monitor.y", "zero-dim", obs)]
+        return []
+    if k == "selfop":
+        n = case["n"]
+        want = dict(x=[[float(i)] for i in range(n)] * 2, y=[i + 0.5 for i in range(n)] * 2, id=list(range(n)) * 2)
+        if "error" in obs:
+            if case["op"] == "prepend" and obs["error"] == "CaseTimeout":
+                return [_fail("prepend_is_concat", "Monitor.prepend", "self-argument-nonterminating", obs)]
+            if case["op"] == "extend" and case["k"] is not None and obs["error"] in ("MemoryError", "CaseTimeout"):
+                return [_fail("extend_is_concat", "Monitor.extend", "self-argument-unbounded-growth", obs)]
+            return [_fail("self_combination", "Monitor." + case["op"], obs["error"], obs)]
+        if not tree_same(obs["x"], want["x"]) or not tree_same(obs["y"], want["y"]) or obs["id"] != want["id"]:
+            return [_fail("self_combination", "Monitor." + case["op"], "value", obs)]
+        if obs["arg_len"] != (n if case["op"] == "add" else 2 * n):
+            return [_fail("argument_unchanged", "Monitor.__add__", "self-argument", obs)]
         return []
     if k == "rewrite":
         out = []
